@@ -33,7 +33,7 @@ class C24(Property):
     props_files = ["SFV/Props/C24.lean"]
     drivers = ["Drivers/C24.lean"]
     translators = [cmdtmpl.generate]
-    quick_budget_s = 600
+    quick_budget_s = 900
     op_timeout = 25
     rule = ("random trees (names with blanks, quotes, $, backticks, glob characters, unicode, leading dashes, newlines; symlinks; contents with "
             "leading/trailing whitespace) are created twice; random sequences of the 16 path operations are executed through LocalStreamFlowPath on "
